@@ -33,6 +33,8 @@ CONCRETE = [
 EPS = {"f4": 2.0 ** -23}
 KEYS = ["xlow", "xhigh", "xcenter", "ylow", "yhigh", "ycenter", "nx", "ny", "xbin", "ybin", "xmin", "xmax", "ymin", "ymax"]
 ABSENT = [[2, 0]]
+MAXCELLS = 4096      # largest table recorded (abstract cases here have at most 15 x 15 cells)
+BATCH = 20000        # cases run and judged at a time (bounds the memory of the harness and of each TLC shard)
 
 # call forms: (name, rev, more, z, engine)
 FORMS_QUICK = [("plain", False, False, False, "c"), ("rev", True, False, False, "py"),
@@ -41,11 +43,11 @@ FORMS_THOROUGH = FORMS_QUICK + [("more+rev+z", True, True, True, "c")]
 
 ABS = 99
 BOUNDS = {
-    "quick": dict(MaxLen=2, Vals={0, 1, 2}, BinPairs={11, 12, 21}, NbinPairs={12, 21, 23, 32}, BothPairs={21},
+    "quick": dict(MaxLen=2, Vals={0, 1, 2}, BinPairs={12, 21}, NbinPairs={12, 21, 32}, BothPairs={21},
                   XMinSet={ABS, 1}, XMaxSet={ABS, 2}, YMinSet={ABS, 1}, YMaxSet={ABS, 1, 3},
                   BoxMaxLen=3, BoxVals={0, 1, 2, 3}, BoxShift=1, BoxWindows={1, 2, 3, 5}),
-    "thorough": dict(MaxLen=3, Vals={0, 1, 2, 3}, BinPairs={11, 12, 21, 22, 23, 31}, NbinPairs={11, 12, 21, 22, 23, 32, 33}, BothPairs={21, 12},
-                     XMinSet={ABS, 1}, XMaxSet={ABS, 2, 4}, YMinSet={ABS, 1}, YMaxSet={ABS, 1, 3},
+    "thorough": dict(MaxLen=3, Vals={0, 1, 2}, BinPairs={11, 12, 21}, NbinPairs={12, 21, 22, 32}, BothPairs={21, 12},
+                     XMinSet={ABS, 1}, XMaxSet={ABS, 2}, YMinSet={ABS, 1}, YMaxSet={ABS, 1, 3},
                      BoxMaxLen=4, BoxVals={0, 1, 2, 3, 4}, BoxShift=2, BoxWindows={1, 2, 3, 4, 6}),
 }
 # tiny space for the self-tests of the mechanism switches
@@ -163,6 +165,9 @@ def observe2d(c, k, form):
     h = np.asarray(h)
     if h.ndim != 2 or h.dtype.kind not in "iu":
         o["err"] = "hist_not_a_2d_integer_table"
+        return o
+    if h.size > MAXCELLS:      # no case of this check allows that many cells; not recorded, judged as an error outcome
+        o["err"] = "table_of_%s_cells" % ("x".join(str(v) for v in h.shape))
         return o
     o["shape"] = [int(h.shape[0]), int(h.shape[1])]
     o["hist"] = [[int(v) for v in row] for row in h]
@@ -296,6 +301,9 @@ def strip(r):
     return out
 
 
+SIGCOUNT = {}
+
+
 def judge(ctx, recs, what):
     rejects = tracecheck.validate(ctx, "Hist2dTrace.tla", [strip(r) for r in recs], what=what)
     byid = {r["id"]: r for r in recs}
@@ -307,6 +315,9 @@ def judge(ctx, recs, what):
             sig = cl.replace("@", "|")
             if r["kind"] == "box":
                 sig += "|N%sn" % ("<=" if r["c"]["n"] <= len(r["c"]["x"]) else ">")
+            SIGCOUNT[sig] = SIGCOUNT.get(sig, 0) + 1
+            if SIGCOUNT[sig] > 40:          # keep the first 40 cases of a signature (memory); all are counted
+                continue
             ctx.violation(sig, "result not allowed by Hist2d.tla: clause %s" % cl,
                           {"kind": r["kind"], "c": r["c"], "concrete": r["concrete"],
                            "observed": r["o"] if r["kind"] == "box" else r["obs"]})
@@ -333,8 +344,8 @@ def selftests(ctx, consts):
     # reference observations from the repaired mechanism (independent of the state of the real code)
     r = ctx.tlc("Hist2dMC.tla", what="self-test: export reference observations",
                 cfg_text=cfg(constants=dict(st, DoExportRef=True), constraints=["Export"]), workers=1, coverage=False)
-    refs = [p for p in r.records.get("REF", []) if sum(map(sum, p["o"]["hist"])) >= 2 and p["c"]["hasxmin"]
-            and len(p["o"]["hist"]) * len(p["o"]["hist"][0]) >= 2]
+    refs = [p for p in r.records.get("REF", []) if p["o"]["err"] == "none" and sum(map(sum, p["o"]["hist"])) >= 2
+            and p["c"]["hasxmin"] and len(p["o"]["hist"][0]) >= 2]
     if not refs:
         raise MachineryError("self-test: no reference observation exported")
     p = refs[len(refs) // 2]
@@ -384,12 +395,20 @@ def run(ctx):
     forms = FORMS_QUICK if ctx.quick else FORMS_THOROUGH
     consts = dict(B, FixedIndex=True, FixedEdge=True, FixedRev=True, DoExport=False, DoExportRef=False)
     # 1. design level: the repaired mechanism refines the property; the spec's own theorems; every case of the space
-    ctx.tlc("Hist2dMC.tla", what="mechanism refines property, spec theorems (exhaustive)",
-            cfg_text=cfg(constants=consts, invariants=["MechRefines", "FlatSafe", "RefTheorems", "BoxRefines"]),
-            workers=16, require=["ChooseData", "ChooseSpec", "MSelect", "MIndex", "MFlatten", "MHist1d", "MReturn", "ChooseBox"],
-            timeout=3000)
+    #    (TLC's coverage accounting is ~20x slower on the recursive acceptance operators: the vacuity guard is a
+    #    separate run over the same space without invariants; both runs must visit the same states)
+    only = getattr(ctx, "only", None) or {"mc", "selftest", "replay", "seeded"}      # --only: development aid
+    if "mc" in only:
+      r0 = ctx.tlc("Hist2dMC.tla", what="every action fires over the bounded space (vacuity guard)",
+                   cfg_text=cfg(constants=consts), workers=16, timeout=3000,
+                   require=["ChooseData", "ChooseSpec", "MSelect", "MIndex", "MFlatten", "MHist1d", "MReturn", "ChooseBox"])
+      r1 = ctx.tlc("Hist2dMC.tla", what="mechanism refines property, spec theorems (exhaustive)",
+                   cfg_text=cfg(constants=consts, invariants=["MechRefines", "FlatSafe", "RefTheorems", "BoxRefines"]),
+                   workers=16, coverage=False, timeout=3000)
+      if r0.distinct != r1.distinct:
+          raise MachineryError("coverage run and invariant run visited different state spaces (%d / %d)" % (r0.distinct, r1.distinct))
     # 2. self-tests (vacuity of MechRefines, binding of the trace module)
-    ncorr = selftests(ctx, consts)
+    ncorr = selftests(ctx, consts) if "selftest" in only else 0
     # 3. export every case (spec -> code) and run it
     r2 = ctx.tlc("Hist2dMC.tla", what="export cases",
                  cfg_text=cfg(constants=dict(consts, DoExport=True), next_="NextExport", constraints=["Export"]),
@@ -397,23 +416,33 @@ def run(ctx):
     cases, boxes = r2.records.get("CASE", []), r2.records.get("BOX", [])
     if not cases or not boxes:
         raise MachineryError("no cases exported")
-    recs = pmap(run_case, [(i, c, forms) for i, c in enumerate(cases, 1)])
-    brecs = pmap(run_box, list(enumerate(boxes, len(recs) + 1)))
-    for r in recs + brecs:
-        ctx.count(r["c"])
-    for r in recs[:: max(1, len(recs) // 3)][:3]:
-        ctx.sample({"case": r["c"], "observed": r["obs"][1]})
-    ctx.sample({"case": brecs[len(brecs) // 2]["c"], "observed": brecs[len(brecs) // 2]["o"]})
-    judge(ctx, recs + brecs, "judge replayed cases (Hist2dTrace)")
+    nrec = 0
+    if "replay" in only:
+        for b0 in range(0, len(cases), BATCH):
+            recs = pmap(run_case, [(i, c, forms) for i, c in enumerate(cases[b0:b0 + BATCH], b0 + 1)])
+            for r in recs:
+                ctx.count(r["c"])
+            if b0 == 0:
+                for r in recs[:: max(1, len(recs) // 3)][:3]:
+                    ctx.sample({"case": r["c"], "observed": r["obs"][1]})
+            judge(ctx, recs, "judge replayed cases %d.. (Hist2dTrace)" % (b0 + 1))
+            nrec += len(recs)
+            del recs
+        brecs = pmap(run_box, list(enumerate(boxes, len(cases) + 1)))
+        for r in brecs:
+            ctx.count(r["c"])
+        ctx.sample({"case": brecs[len(brecs) // 2]["c"], "observed": brecs[len(brecs) // 2]["o"]})
+        judge(ctx, brecs, "judge replayed boxcar cases (Hist2dTrace)")
     # 4. larger seeded cases, code -> spec
     nrand, maxlen, nbox = (300, 40, 300) if ctx.quick else (5000, 120, 4000)
     rng = random.Random(ctx.seed)
-    base = len(recs) + len(brecs) + 1
-    rrecs = pmap(run_case, random_cases(rng, nrand, maxlen, base, forms))
-    rbox = pmap(run_box, random_box(rng, nbox, base + nrand))
-    for r in rrecs + rbox:
-        ctx.count(r["c"])
-    judge(ctx, rrecs + rbox, "judge seeded larger cases (Hist2dTrace)")
+    base = len(cases) + len(boxes) + 1
+    if "seeded" in only:
+        rrecs = pmap(run_case, random_cases(rng, nrand, maxlen, base, forms))
+        rbox = pmap(run_box, random_box(rng, nbox, base + nrand))
+        for r in rrecs + rbox:
+            ctx.count(r["c"])
+        judge(ctx, rrecs + rbox, "judge seeded larger cases (Hist2dTrace)")
     ctx.rule = ("every pair of coordinate arrays of length 1..%d over %d lattice values x every bin-size pair %s / bin-count pair %s "
                 "(10*x+y; both given: %s) x every xmin in %s, xmax in %s, ymin in %s, ymax in %s (99 = absent), exported from "
                 "Hist2dMC.tla, each concretised on one of %d pairs of dyadic lattices and run in %d call forms (plain, rev, more, z; "
@@ -424,7 +453,8 @@ def run(ctx):
                  len(forms), B["BoxMaxLen"], len(B["BoxVals"]), sorted(B["BoxWindows"]), nrand, maxlen, nbox))
     ctx.exhaustive = True
     ctx.note(bounds={k: sorted(v) if isinstance(v, set) else v for k, v in B.items()}, exported_cases=len(cases),
-             exported_box_cases=len(boxes), call_forms=[f[0] for f in forms], selftest_corruptions_rejected=ncorr)
+             exported_box_cases=len(boxes), call_forms=[f[0] for f in forms], selftest_corruptions_rejected=ncorr,
+             rejected_cases_per_signature=dict(SIGCOUNT))
     ctx.assumptions = [
         "dyadic lattice: the bin index of a lattice datum is exact in binary64/32 unless the real quotient is an integer and the "
         "bin size (or its reciprocal) inexact - there both neighbouring bins are accepted",
